@@ -94,6 +94,10 @@ class SingularityCutter(Worker):
         """
         self.log("Cutting to link singularities and retrieve disk topology")
         self.log("# Singularities :", len(self.singularities))
+        # what was built lazily from the cut edges of a previous run is discarded
+        self._output_mesh = None
+        self._cut_graph = None
+        self.ref_vertex = None
         if self.has_features:
             self.log(f"{len(self.feat_detector.feature_edges)} feature edges and {len(self.feat_detector.feature_vertices)} feature vertices provided")
             self._run_with_features()
